@@ -507,9 +507,9 @@ fn run(ctx: &Arc<Ctx>) {
         coll.push(CollisionCase(i));
     }
     ctx.run_enumerated("dimension-collisions", "collision", coll, Some("for each size W x H: arrays of (W-1) x (H+256), (W-2) x (H+512), (W-1) x (H+128), W x (H+256) must be rejected as unknown dimensions"), check_collision);
-    ctx.run_generated("chains", "chain", ctx.cases(100_000, 2_000_000), g_chain, check_chain);
+    ctx.run_generated("chains", "chain", ctx.cases(300_000, 3_000_000), g_chain, check_chain);
     let o = EncGenOpts { long_weight: 1, macro_weight: 1, allow_fnc1: false, ..Default::default() };
-    ctx.run_generated("pick", "enc", ctx.cases(100_000, 1_000_000), || g_enc_case(o), check_pick);
+    ctx.run_generated("pick", "enc", ctx.cases(300_000, 2_000_000), || g_enc_case(o), check_pick);
 }
 
 fn replay(_ctx: &Ctx, kind: &str, case: &Value) -> Option<Verdict> {
